@@ -105,7 +105,7 @@ def run(rep):
     rep.decide('R08.a user code under Exception handlers (interprocedural); R08.b non-Response results converted; '
                'R08.c re-raise only if configured; R08.d no shared store on the request path')
     rep.decide('R08.e error serialisers never format with error text; R08.f converters under a handler; R08.g no strict '
-               'decode on the unprotected part of the request path')
+               'decode on the unprotected part of the request path; R08.h error bodies are encoded by a total encoding')
     rep.decline('exceptions from other primitive operations outside the protected regions (arithmetic, indexing, attribute '
                 'access on werkzeug objects); werkzeug response completeness')
     rep.assume('a bare raise re-raises the exception being handled (Python semantics)')
@@ -369,8 +369,17 @@ def run(rep):
         from .c06 import check_sentinel_priority
         check_sentinel_priority(rep, 'R08.i', repo, app, route, most_recent=False)
 
+    def body_encoding_rules():
+        # ---- R08.h -----------------------------------------------------------
+        rep.rule('R08.h', 'the body of an error response is bytes from an encoding that cannot fail: the 500 for an uncaught exception '
+                          'is built inside the except clause of dispatch from text the application controls, and werkzeug encodes a '
+                          'str body strictly (a lone surrogate would let UnicodeEncodeError out of the WSGI callable)')
+        from .bodytext import check_total_body_encoding
+        check_total_body_encoding(rep, 'R08.h')
+
     # each group is analysed on its own: a construct one group cannot follow does not hide the verdicts of the others
-    for group in (dispatch_rules, reraise_rules, store_rules, serialiser_rules, converter_rules, decoding_rules, deferred_error_rules):
+    for group in (dispatch_rules, reraise_rules, store_rules, serialiser_rules, converter_rules, decoding_rules, deferred_error_rules,
+                  body_encoding_rules):
         run_group(rep, group)
 
 
